@@ -172,6 +172,7 @@ func c04CheckFinalising(prefix string, next func(string, v1beta1.FinalisingStepT
 }
 
 func VerifC04_CanaryFinalisingStep() {
+	vSimple = true
 	r := vCanaryRollout(1, 1)
 	r.Status.CanaryStatus.FinalisingStep = c04Steps[verifrt.IntRange("finalisingStep", 0, len(c04Steps)-1)]
 	c := vContext(r)
@@ -186,6 +187,7 @@ func VerifC04_CanaryFinalisingStep() {
 }
 
 func VerifC04_BlueGreenFinalisingStep() {
+	vSimple = true
 	r := vBlueGreenRollout(1, 1)
 	r.Status.BlueGreenStatus.FinalisingStep = c04Steps[verifrt.IntRange("finalisingStep", 0, len(c04Steps)-1)]
 	c := vContext(r)
@@ -202,6 +204,7 @@ func VerifC04_BlueGreenFinalisingStep() {
 // VerifC04_ProgressingReset: continuous release resets in the order gateway -> BatchRelease -> canary Service, each
 // gated on the previous one being complete, from any persisted cursor.
 func VerifC04_ProgressingReset() {
+	vSimple = true
 	r := vCanaryRollout(1, 1)
 	r.Status.CanaryStatus.FinalisingStep = c04Steps[verifrt.IntRange("finalisingStep", 0, len(c04Steps)-1)]
 	c := vContext(r)
